@@ -127,6 +127,11 @@ def ob_cache_step(v: int, perr: bool, pvol: bool, pcaching: bool, pvar: int, pre
         if clause == "C04":
             ok = ok and outcome(out) == outcome(ref)
             ok = ok and all(c is cache for (qq, c, kw) in c1.asked if qq == ptext)
+            if use_extra:
+                # history: (warm or cold) cache, Q with extra parameters, then Q plainly: the plain outcome is the cache-less one
+                c4 = HContext(cache, _substates(qi, v, perr, pvol, pcaching, pvar))
+                plain = c4.evaluate(q)
+                ok = ok and outcome(plain) == outcome(keyref)
             if hit and not out.is_error:
                 # a warm cache stays transparent after the caller used what it was served (history Q, <use of the result>, Q)
                 out.metadata["filename"] = "tampered.bin"
